@@ -85,6 +85,7 @@ class World(object):
         c["numpy.global_rng"] = digest([st[0], st[1], st[2], st[3], st[4]])
         if self.modules:
             c["module_globals"] = module_globals_digest(self.modules)
+        c["process_settings"] = process_settings()
         return c
 
     def key(self):
@@ -96,6 +97,17 @@ class World(object):
     def restore(self, snap):
         self.objects = copy.deepcopy(snap[0])
         numpy.random.set_state(snap[1])
+
+
+def process_settings():
+    """process-wide settings a library call could leave changed for everybody else (numpy error state and print
+    options, number of warning filters, recursion limit, working directory)"""
+    import os
+    import sys
+    import warnings
+    po = numpy.get_printoptions()
+    return repr((sorted(numpy.geterr().items()), sorted((k, repr(v)) for k, v in po.items()),
+                 len(warnings.filters), sys.getrecursionlimit(), os.getcwd()))
 
 
 def changed(before, after):
